@@ -153,6 +153,38 @@ def run(tier="quick", seed=0, arg=None):
                 if got != exp:
                     fails.append({"check": "C03.evaluate", "input": {"text": t, "env": {k: (sorted(v) if isinstance(v, set) else v) for k, v in e.items()}, "context": "lock_file"},
                                   "observed": got, "expected": exp})
+    # pre-, post- and dev-release environment values around the literal (a release candidate's python_full_version is "3.13.0rc1"): PEP 440's exclusive
+    # ordering is not mirror-symmetric there (`< V` excludes pre-releases of V, `> V` its post-releases), so both operand orders are run
+    for var, lit_envs in (("python_full_version", [("3.13", "3.13.0"), ("3.13.0", "3.13.0"), ("3.8.5", "3.8.5")]),
+                          ("platform_release", [("5.10", "5.10.0"), ("5.10.0", "5.10.0"), ("6.1", "6.1")]),
+                          ("python_version", [("3.13", "3.13"), ("3.8", "3.8")])):
+        for lit, rel in lit_envs:
+            vals = [rel, rel + "rc1", rel + "a1", rel + "b2", rel + ".post1", rel + ".dev1", rel + "rc1.post1"]
+            head, last = rel.rsplit(".", 1)
+            vals += [f"{head}.{int(last) + 1}", f"{head}.{int(last) + 1}rc1", f"{head}.{int(last) + 1}.dev0"] + ([f"{head}.{int(last) - 1}.post2"] if int(last) else [])
+            for op in ("<", "<=", ">", ">=", "==", "!=", "~=", "==="):
+                if op == "~=" and "." not in lit:
+                    continue
+                for t in (f'{var} {op} "{lit}"', f'"{lit}" {op} {var}'):
+                    try:
+                        m, ref = parse_marker(t), PkgMarker(t)
+                    except Exception as e:  # noqa: BLE001
+                        fails.append({"check": "C03.parse-raises", "input": {"text": t}, "observed": repr(e), "expected": "parses"})
+                        continue
+                    for v in vals:
+                        e = dict(base, extra="", **{var: v})
+                        evals += 1
+                        try:
+                            exp = ref.evaluate(e)
+                        except Exception:  # noqa: BLE001
+                            continue
+                        try:
+                            got = m.evaluate(e)
+                        except Exception as ex:  # noqa: BLE001
+                            fails.append({"check": "C03.evaluate-raises", "input": {"text": t, "env": e}, "observed": repr(ex), "expected": exp})
+                            continue
+                        if got != exp:
+                            fails.append({"check": "C03.evaluate", "input": {"text": t, "env": e}, "observed": got, "expected": exp})
     return {"suite": "marker_vs_packaging", "evaluations": evals, "distinct_nontrivial": len(distinct), "not_evaluated": timeouts,
             "rule": "marker texts over the well-defined atom pool (both operand orders, nested and/or with parentheses), each evaluated on %d environments "
                     "by dep-logic and by the installed packaging; non-trivial = reference truth value varies over the grid; environments on which packaging itself "
